@@ -441,6 +441,9 @@ func (sf *file) ReadAt(p []byte, offset int64) (int, error) {
 			upperDiscard = positive(chunkOffset + chunkSize - (offset + int64(len(p))))
 			expectedSize = chunkSize - upperDiscard - lowerDiscard
 		)
+		if chunkSize <= 0 || expectedSize <= 0 || expectedSize > int64(len(p)-nr) {
+			return 0, fmt.Errorf("invalid chunk (offset=%d, size=%d) for reading %d bytes at %d", chunkOffset, chunkSize, len(p), offset)
+		}
 
 		// Check if the content exists in the cache
 		if r, err := sf.gr.cache.Get(id); err == nil {
